@@ -126,7 +126,8 @@ package revocation
 
 //@ func (*Proof).VerifyWithChallenge
 //@   property C11 C08
-//@   requires p != nil && pk != nil && reconstructedChallenge != nil
+//@   requires p != nil && pk != nil && pk.N != nil && reconstructedChallenge != nil
+//@   ensures units: result ==> 0 < val(p.Cr) && val(p.Cr) < val(pk.N) && 0 < val(p.Cu) && val(p.Cu) < val(pk.N)
 //@   ensures accept: result ==> nrstruct(p) && val(p.Responses["alpha"]) <= val(Parameters.bTwoZk) && p.SignedAccumulator != nil && p.acc != nil && p.acc == p.SignedAccumulator.Accumulator && p.acc.Nu != nil && val(p.Nu) == val(p.acc.Nu) && val(p.Challenge) == val(reconstructedChallenge)
 //@   modifies p.acc, p.SignedAccumulator.Accumulator
 //@   mustfail canary: !result
